@@ -331,9 +331,19 @@ static int rec_io = 0;
 #define MAXOPEN 256
 static FILE *open_f[MAXOPEN];
 static char *open_p[MAXOPEN];
+static long long wdev_cap = -1; static int wdev_fsync_fails, wdev_close_fails, wdev_open_fails, wdev_active;
+static FILE *wdev_stream;
+int __real_fsync(int fd);
+int __wrap_fsync(int fd)
+{
+  if(wdev_active && wdev_fsync_fails) { errno = EIO; return -1; }
+  return __real_fsync(fd);
+}
 FILE *__wrap_fopen(const char *path, const char *mode)
 {
+  if(wdev_active && wdev_open_fails && mode[0] == 'w') { errno = EACCES; return NULL; }
   FILE *f = __real_fopen(path, mode);
+  if(wdev_active && mode[0] == 'w') wdev_stream = f;
   if(rec_io && f)
   {
     ev_hs("open", path);
@@ -353,6 +363,13 @@ int __wrap_fclose(FILE *f)
       open_p[i] = NULL;
       break;
     }
+  if(wdev_active && f && f == wdev_stream)
+  {
+    wdev_stream = NULL;
+    int rc = __real_fclose(f);
+    if(wdev_close_fails) { errno = EIO; return EOF; }
+    return rc;
+  }
   return __real_fclose(f);
 }
 static int count_open_tracked(void)
@@ -800,10 +817,22 @@ static int run_line(char *line)
     free(buf);
     return 0;
   }
+  if(n == 5 && IS("wdev"))
+  {
+    wdev_cap = parse_num(tok[1]); wdev_fsync_fails = parse_num(tok[2]) != 0;
+    wdev_close_fails = parse_num(tok[3]) != 0; wdev_open_fails = parse_num(tok[4]) != 0;
+    r_unit(); return 0;
+  }
   if(n == 2 && IS("writef"))
   {
     char *path = parse_hs(tok[1], NULL);
+    struct rlimit old, lim;
+    getrlimit(RLIMIT_FSIZE, &old);
+    if(wdev_cap >= 0) { lim = old; lim.rlim_cur = (rlim_t)wdev_cap; setrlimit(RLIMIT_FSIZE, &lim); }
+    wdev_active = 1;
     int r = config_write_file(&cfg, path);
+    wdev_active = 0;
+    setrlimit(RLIMIT_FSIZE, &old);
     free(path);
     r_int(r); return 0;
   }
@@ -852,6 +881,7 @@ int main(int argc, char **argv)
   out = fdenv ? fdopen(atoi(fdenv), "w") : fdopen(dup(1), "w");
   if(!out) { perror("out"); return 2; }
   cap_init();
+  signal(SIGXFSZ, SIG_IGN);
 
   FILE *sf = fopen(argv[1], "r");
   if(!sf) { perror(argv[1]); return 2; }
